@@ -5,6 +5,7 @@
 -/
 import IsoDT.Model.Calendar
 import IsoDT.Model.TimePoint
+import IsoDT.Model.Duration
 
 open IsoDT IsoDT.Model
 open IsoDT.Spec (Date TZ TP)
@@ -147,6 +148,50 @@ def tpOp (op : String) (m : Mode) (rest : List String) : String :=
       | none => "bad-op"
     | _ => "bad-op"
 
+def b01 (b : Bool) : String := if b then "1" else "0"
+
+def durOp (op : String) (m : Mode) (rest : List String) : String :=
+  if op == "dmk" then
+    match ints? rest with
+    | some [y, mo, w, d, h, mi, s] => showDur (mkDur m y mo w d h mi s)
+    | _ => "bad-op"
+  else
+  match parseDur rest with
+  | none => "bad-op"
+  | some (a, rest) =>
+    match op with
+    | "dadd" => match parseDur rest with
+      | some (b, _) => showDur (Dur.add m a b)
+      | none => "bad-op"
+    | "dsub" => match parseDur rest with
+      | some (b, _) => showDur (Dur.sub m a b)
+      | none => "bad-op"
+    | "dmul" => match ints? rest with
+      | some [n] => showDur (a.mul n)
+      | _ => "bad-op"
+    | "dfdiv" => match ints? rest with
+      | some [n] => showODur (a.floordiv n)
+      | _ => "bad-op"
+    | "dabs" => showDur a.abs
+    | "dtodays" => showDur (a.toDays m)
+    | "dtoweeks" => showDur (a.toWeeks m)
+    | "ddas" => let r := a.daysAndSeconds m; s!"{r.1} {r.2}"
+    | "dsecs" => toString (a.seconds m)
+    | "dbool" => b01 a.nonzero
+    | "deq" => match parseDur rest with
+      | some (b, _) => b01 (Dur.eq m a b)
+      | none => "bad-op"
+    | "dhasheq" => match parseDur rest with
+      | some (b, _) => b01 (Dur.hashKey m a == Dur.hashKey m b)
+      | none => "bad-op"
+    | "dcmp" => match parseDur rest with
+      | some (b, _) => s!"{b01 (Dur.lt m a b)} {b01 (Dur.le m a b)} {b01 (Dur.gt m a b)} {b01 (Dur.ge m a b)}"
+      | none => "bad-op"
+    | _ => "bad-op"
+
+def durOps : List String := ["dmk", "dadd", "dsub", "dmul", "dfdiv", "dabs", "dtodays", "dtoweeks", "ddas",
+  "dsecs", "dbool", "deq", "dhasheq", "dcmp"]
+
 def tpOps : List String := ["add", "sub", "addmonths", "tick", "tz", "hash", "hasheq", "cmp", "subtp"]
 
 def dispatch (toks : List String) : String :=
@@ -161,6 +206,10 @@ def dispatch (toks : List String) : String :=
     if tpOps.contains op then
       match Mode.ofName? mode with
       | some m => tpOp op m rest
+      | none => "bad-op"
+    else if durOps.contains op then
+      match Mode.ofName? mode with
+      | some m => durOp op m rest
       | none => "bad-op"
     else dispatch0 toks
   | _ => dispatch0 toks
